@@ -20,6 +20,7 @@ structure X86WF (f : Frame) : Prop where
   total : f.ppOff + f.ppSize = f.finalSize
   adjPlain : f.hasDA = false → f.stackAdj = f.ppOff ∧ f.saOffSp = f.finalSize + f.arch.W
   adjDA : f.hasDA = true → f.stackAdj % f.finalAlign = 0 ∧ f.ppOff ≤ f.stackAdj ∧ f.saOffSp = invalidOff
+            ∧ f.stackAdj < f.ppOff + f.finalAlign
   aligned : f.usesStack = true → (f.finalSize + f.arch.W) % f.finalAlign = 0
   vecAligned : f.alignedVecSR = true → f.xOff % 16 = 0 ∧ 16 ∣ f.finalAlign ∧ f.usesStack = true
   noDaNat : f.hasDA = false → f.finalAlign = f.natAlign
